@@ -63,6 +63,14 @@ CHECKS = {
             "native entry points. The model is thin; the weight is on the tie: C API, wrapper_cpp and native World queried in one "
             "process, bit-identical answers, output directory observed through the files written, seed through random models.",
             "proof about the marshalling model + in-process wrapper-vs-native oracle", "4 C16"),
+    "C17": ("Theorems (Properties_C17.v, axiom-free) about the layout model Dat.v: in 3-D every printed cell is the answer slot its "
+            "header names (offsets = prefix sums of the request list) for every number of compositions, grain sets and grains, "
+            "once the header's 'g' column is dropped; the 'g' column and the 2-D composition/grain offsets are REFUTED with "
+            "kernel-checked witnesses (known findings D12a/D12b, encoded in the reference logs of the suite); 2-D tables without "
+            "compositions are right; short '#' lines change nothing; rows are accepted iff they have dim+1 entries. Tie: the "
+            "gwb-dat binary's stdout vs the model's layout filled with the library's answer from wbprobe; oracle: meaning of "
+            "each header name.",
+            "proof about the column-layout model + binary-vs-model correspondence + header-meaning oracle", "4 C17"),
 }
 
 NOT_YET = {
